@@ -122,8 +122,8 @@ fn eq_true(a: &Val, b: &Val) -> bool {
         (Val::Float(x), Val::Float(y)) => f64::from_bits(*x) == f64::from_bits(*y),
         (Val::Int(x), Val::Float(y)) | (Val::Float(y), Val::Int(x)) => {
             let f = f64::from_bits(*y);
-            // exact: f integral, in range, and equal
-            f.is_finite() && f.fract() == 0.0 && f >= -9.223372036854775808e18 && f < 9.223372036854775808e18 && (f as i64) == *x && (*x as f64) == f
+            // evaluator_equality.rs float_equals_int, in Rust's own arithmetic
+            f.is_finite() && f == (*x as f64)
         }
         _ => false,
     }
@@ -198,7 +198,7 @@ struct Pair {
 }
 impl Pair {
     fn new() -> Self {
-        let dir = tempfile::tempdir().unwrap();
+        let dir = if std::path::Path::new("/dev/shm").is_dir() { tempfile::tempdir_in("/dev/shm").unwrap() } else { tempfile::tempdir().unwrap() };
         let a = Db::open(dir.path().join("a")).unwrap();
         let b = Db::open(dir.path().join("b")).unwrap();
         Pair { dir, a: Some(a), b: Some(b) }
@@ -308,6 +308,8 @@ fn run_history(idx: usize, cx: &mut Ctx, script: Option<Vec<Op>>, il: u8, ik: u8
     let mut log: Vec<serde_json::Value> = vec![];
     let mut have_index = false;
     let scripted = script.is_some();
+    let early_index = cx.r.chance(1, 2);
+    let index_at = 2 + cx.r.below(6) as usize;
     let mut script = script.unwrap_or_default().into_iter();
     let mut i = 0usize;
     loop {
@@ -324,8 +326,18 @@ fn run_history(idx: usize, cx: &mut Ctx, script: Option<Vec<Op>>, il: u8, ik: u8
                 break;
             }
             let r = &mut *cx.r;
-            let w = r.below(100);
-            if live.is_empty() || w < 30 {
+            let mut w = r.below(100);
+            // index creation at a random point: first in half of the histories, else after 1-6 steps
+            if !have_index && ((i == 1 && early_index) || (!early_index && i == index_at)) {
+                w = 80;
+            }
+            if w >= 78 && w < 88 && have_index && r.chance(3, 4) {
+                w = r.below(78);
+            }
+            if w >= 78 && w < 88 {
+                // fallthrough to CreateIndex
+            }
+            if (live.is_empty() && !(w >= 78 && w < 88)) || w < 30 {
                 let mut labels = vec![];
                 match r.below(10) {
                     0 => {}
@@ -349,10 +361,13 @@ fn run_history(idx: usize, cx: &mut Ctx, script: Option<Vec<Op>>, il: u8, ik: u8
             } else if w < 55 {
                 let id = *r.pick(&live);
                 let n = 1 + r.below(3) as usize;
+                // one SET clause (null removes) or one REMOVE clause: a statement chaining SET and
+                // REMOVE clauses is rejected by execute_write ("must be executed via execute_write")
+                let as_remove = r.chance(1, 5);
                 let items = (0..n)
                     .map(|_| {
                         let k = if r.chance(2, 3) { ik } else { r.below(3) as u8 };
-                        if r.chance(1, 5) { (k, Val::Null, true) } else { (k, gen_val(r, true), false) }
+                        if as_remove { (k, Val::Null, true) } else { (k, gen_val(r, true), false) }
                     })
                     .collect();
                 Op::Props(id, items)
@@ -435,7 +450,7 @@ fn run_history(idx: usize, cx: &mut Ctx, script: Option<Vec<Op>>, il: u8, ik: u8
                     let mut prev_set = false;
                     for (j, (k, v, as_remove)) in items.iter().enumerate() {
                         if *as_remove {
-                            q.push_str(&format!(" REMOVE n.{}", KEYS[*k as usize]));
+                            q.push_str(&format!("{}n.{}", if j == 0 { " REMOVE " } else { ", " }, KEYS[*k as usize]));
                             prev_set = false;
                         } else {
                             q.push_str(if prev_set { ", " } else { " SET " });
@@ -593,7 +608,7 @@ fn run_history(idx: usize, cx: &mut Ctx, script: Option<Vec<Op>>, il: u8, ik: u8
         }
 
         // ---- observations: raw index lookups and queries
-        let nq = if scripted { 2 } else { cx.r.below(3) as usize };
+        let nq = if scripted { 2 } else if have_index { 1 + cx.r.below(3) as usize } else { cx.r.below(2) as usize };
         for _ in 0..nq {
             // value: mostly one that some node holds (or its numeric twin)
             let held: Vec<Val> = m.nodes.iter().filter_map(|x| x.props.get(&ik).cloned()).collect();
